@@ -69,4 +69,14 @@ theorem fresh_ok (now : Int) (h : inI32 now = true) : (freshLay now).Ok := by
   · refine ⟨⟨1, 14, now, now, now⟩, rfl, fun rest => ?_⟩
     exact Header.dec_enc _ (by have := (inI32_iff now).mp h; simp [Header.valid, inI32]; omega) rest
 
+/-- the hypotheses of the history theorems are satisfiable by a history that really mutates the file -/
+def demoArg : BlkArg := ⟨16, 1, 3, some [1, 2, 3], 0, 0⟩
+
+example : OpsOk (freshLay 1000) [.add demoArg defaultComment 1001, .remove 16 1002] := by
+  refine ⟨⟨by decide, ?_, by decide⟩, ⟨by decide, by decide⟩, trivial⟩
+  intro pl h; simp [demoArg] at h; subst h; rfl
+example : ((freshLay 1000).specRun [.add demoArg defaultComment 1001]).bs.map (·.payload) = [[1, 2, 3]] := by decide
+example : ((freshLay 1000).specRun [.add demoArg defaultComment 1001, .remove 16 1002]).bs = [] := by decide
+example : (runOps (freshLay 1000).state [.add demoArg defaultComment 1001]).disk.length = 4099 := by decide +kernel
+
 end Tdf.C03
